@@ -1,24 +1,33 @@
 """C01 — contents equal the outcome of acknowledged writes."""
+import json
+
 from bodies import Tokens
-from storefam import gen_many, run_templates
+from httpfam import run_http_templates
+from storefam import gen_many, replay_store, run_templates
 
 AUDIT = "Audit/C01.lean"
-MODULE = "Xandikos.Theorems.C01"
+MODULE = "Xandikos.Theorems.C01Http"
+PREFIXES = ("C01:",)
 
 
 def run(chk):
-    chk.rule = ("random-walk histories of put/delete/restart/sync over 3-6 names and ~10 bodies "
-                "(valid, invalid, conditional) replayed on bare-memory, bare-disk, tree and vdir stores "
-                "with a full audit (listing + every member) after each step; a case is one "
-                "(back end, resolved history); non-trivial = at least two mutating operations")
+    chk.rule = ("random-walk histories of put/delete/restart/sync over 3-6 names and ~10 bodies (valid, invalid, "
+                "conditional) replayed (a) at the store API on bare-memory, bare-disk, tree and vdir stores and (b) "
+                "over HTTP (PUT/POST/DELETE/MKCOL/MKCALENDAR/GET/PROPFIND, restarts) through the WSGI callable and a "
+                "real aiohttp server under route prefixes /, /dav/, /a/b/, with a full audit (listing + every member) "
+                "after each step; a case is one (back end or front end, resolved history); non-trivial = at least two "
+                "mutating operations")
     chk.lean_obligations(MODULE, AUDIT)
     toks = Tokens()
-    n = 12 if chk.tier == "quick" else 150
-    tmpls = gen_many(chk, toks, n, 25 if chk.tier == "quick" else 35, "mixed")
-    run_templates(chk, tmpls, toks, ("C01:",))
+    quick = chk.tier == "quick"
+    tmpls = gen_many(chk, toks, 10 if quick else 150, 25 if quick else 35, "mixed")
+    run_templates(chk, tmpls, toks, PREFIXES)
+    run_http_templates(chk, toks, 5 if quick else 60, 22 if quick else 30, "mixed", PREFIXES)
 
 
 def replay(chk, path):
-    import json
-    from storefam import replay_store
-    return replay_store(chk, json.load(open(path)), ("C01:",))
+    rep = json.load(open(path))
+    if rep.get("replay", rep).get("level") == "store":
+        return replay_store(chk, rep, PREFIXES)
+    print(json.dumps(rep, indent=1)[:4000])
+    return 0
